@@ -1,6 +1,109 @@
-(* Properties/C18.v — graph traversals, SCCs and subgraphs agree with their definitions. *)
-From MM Require Import Base.Num Model.Marks Spec.MarkSet Proofs.Marks.
+(* Properties/C18.v — graph traversals, SCCs and subgraphs agree with their definitions on
+   any graph.  ONLY statements; each is closed by [exact] of a lemma from Proofs/. *)
+From Coq Require Import List ZArith NArith Lia Bool Permutation.
+From MM Require Import Base.Num Base.GCGraph Base.GCReach.
+From MM Require Import Model.Marks Spec.MarkSet Proofs.Marks.
+From MM Require Import Spec.Dfs Model.Order Proofs.Order Proofs.OrderMarks.
+Import ListNotations.
 
+(* ================= NodeMarks behaves as a set of non-negative integers ================= *)
+
+(* A fresh set is empty; Test is membership in the set the words denote. *)
 Theorem C18_marks_new_empty : forall i, m_test m_new i = false.
 Proof. exact new_spec. Qed.
 Print Assumptions C18_marks_new_empty.
+
+Theorem C18_marks_test_spec : forall m i, m_test m i = true <-> m_abs m i.
+Proof. exact test_spec. Qed.
+Print Assumptions C18_marks_test_spec.
+
+(* Mark adds exactly i — for EVERY id i >= 0, however far beyond the current storage:
+   growing keeps all words and covers the word Mark writes to (the index that is out of
+   range on the pinned tree, defect D11). *)
+Theorem C18_marks_mark_spec : forall m i j, m_test (m_mark m i) j = (j =? Z.of_N i)%Z || m_test m j.
+Proof. exact mark_spec. Qed.
+Print Assumptions C18_marks_mark_spec.
+
+Theorem C18_marks_grow_covers : forall m i, (N.to_nat (i / 32) < length (m_grow m i))%nat.
+Proof. exact grow_covers. Qed.
+Print Assumptions C18_marks_grow_covers.
+
+(* Unmark removes exactly i. *)
+Theorem C18_marks_unmark_spec : forall m i j, m_test (m_unmark m i) j = negb (j =? Z.of_N i)%Z && m_test m j.
+Proof. exact unmark_spec. Qed.
+Print Assumptions C18_marks_unmark_spec.
+
+(* Next(i) is the least marked j > i, or -1 when there is none (any i, negative included). *)
+Theorem C18_marks_next_spec : forall m i, words_ok m ->
+  let r := m_next m i in
+  (r = (-1)%Z /\ forall j, (i < j)%Z -> m_test m j = false) \/
+  ((i < r)%Z /\ (0 <= r)%Z /\ m_test m r = true /\ forall j, (i < j < r)%Z -> m_test m j = false).
+Proof. exact next_spec. Qed.
+Print Assumptions C18_marks_next_spec.
+
+(* Any sequence of Mark, Unmark, Test and Next on a fresh NodeMarks returns exactly what
+   the same sequence returns on a plain set of integers. *)
+Theorem C18_marks_history : forall ops, m_run m_new ops = zs_run [] ops.
+Proof. exact marks_history. Qed.
+Print Assumptions C18_marks_history.
+
+Example C18_marks_nonvacuous :
+  m_run m_new [MMark 1024; MMark 5; MTest 1024; MNext 5; MUnmark 1024; MNext 5; MNext (-1)]
+  = [0; 0; 1; 1024; 0; -1; 5]%Z.
+Proof. vm_compute. reflexivity. Qed.
+
+(* ================= PreOrder, PostOrder, Euler ================= *)
+
+(* With fuel above the number of nodes the three models terminate, and what they return
+   are the Enter projection, the Exit projection and the whole of ONE event sequence
+   satisfying the depth-first specification [dfs_node] from the empty visited set. *)
+Theorem C18_traversals_are_dfs : forall out n r fuel, out_wf out n -> (r < n)%N -> (N.to_nat n < fuel)%nat ->
+  exists evs V', dfs_node out [] r evs V' /\
+    preorder out fuel r = Some (enters evs) /\
+    postorder out fuel r = Some (exits evs) /\
+    euler out fuel r = Some evs.
+Proof. exact traversals_dfs. Qed.
+Print Assumptions C18_traversals_are_dfs.
+
+(* The specification determines the event sequence (so "exactly the DFS order"). *)
+Theorem C18_dfs_unique : forall out V n e1 V1, dfs_node out V n e1 V1 ->
+  forall e2 V2, dfs_node out V n e2 V2 -> e1 = e2 /\ V1 = V2.
+Proof. exact dfs_det. Qed.
+Print Assumptions C18_dfs_unique.
+
+(* What the specification implies: the pre-order lists exactly the nodes reachable from the
+   root, each once, root first; the post-order is a permutation of it ending with the root;
+   Enter/Exit calls are properly nested. *)
+Theorem C18_dfs_facts : forall out r evs V', dfs_node out [] r evs V' ->
+  (forall v, In v (enters evs) <-> path out r v) /\
+  NoDup (enters evs) /\
+  hd_error (enters evs) = Some r /\
+  Permutation (enters evs) (exits evs) /\
+  (exists l, exits evs = l ++ [r]) /\
+  nested evs.
+Proof. exact dfs_facts. Qed.
+Print Assumptions C18_dfs_facts.
+
+(* Whatever the fuel: a result, once returned, is the DFS order (no wrong answer from
+   running out of fuel). *)
+Theorem C18_preorder_sound : forall out fuel r l, preorder out fuel r = Some l ->
+  exists evs V', dfs_node out [] r evs V' /\ l = enters evs.
+Proof. exact preorder_is_dfs. Qed.
+Print Assumptions C18_preorder_sound.
+
+Theorem C18_postorder_sound : forall out fuel r l, postorder out fuel r = Some l ->
+  exists evs V', dfs_node out [] r evs V' /\ l = exits evs.
+Proof. exact postorder_is_dfs. Qed.
+Print Assumptions C18_postorder_sound.
+
+Example C18_traversal_nonvacuous :
+  let g := [[1; 2; 1]; [2; 0]; [2]; [0]]%N in
+  preorder (g_out g) 5 0 = Some [0; 1; 2]%N /\ postorder (g_out g) 5 0 = Some [2; 1; 0]%N /\
+  euler (g_out g) 5 0 = Some [Enter 0; Enter 1; Enter 2; Exit 2; Exit 1; Exit 0]%N.
+Proof. vm_compute. auto. Qed.
+
+(* ================= reachability closure used by the SCC checker ================= *)
+Theorem C18_reach_spec : forall out fuel r s, reach out fuel r = Some s ->
+  forall v, ns_mem v s = true <-> path out r v.
+Proof. exact reach_spec. Qed.
+Print Assumptions C18_reach_spec.
